@@ -15,7 +15,7 @@ static inline std::vector<Str> resolve_bases(bool with_relative) {
     if (with_relative) for (auto s : { "", "/a", "//h/a", "a" }) v.push_back(s);
     return v;
 }
-static inline std::vector<Str> dot_tokens() { return { "", ".", "..", "a", "b", "c:d" }; }
+static inline std::vector<Str> dot_tokens() { return { "", ".", "..", "a", "b", "c:d", "1:e" }; }   // "1:e": a colon segment that does not look like a scheme
 
 // references: scheme x authority x path-token sequences (<= n) x query x fragment
 static inline std::vector<Str> resolve_refs(int n, bool rich = true) {
